@@ -178,10 +178,10 @@ func GenerateC07(r *rand.Rand, shape int) *C07Set {
 		if g.chance(0.03) {
 			g.op(C07ImplicitCase)
 		}
-		if g.chance(0.02) {
+		if g.chance(0.1) {
 			g.op(C07SubNoPrefix)
 		}
-		if g.chance(0.02) {
+		if g.chance(0.05) {
 			g.op(C07ActionNoIO)
 		}
 	case C07ChainWorst:
@@ -374,10 +374,10 @@ func (g *c07g) feature(m *Module, f int) {
 		}
 	case 3: // rpc
 		g.rpcBody(m, b.add("rpc", g.name("r", m)), g.r.Intn(4))
-	case 4: // action in a container (never without both input and output: see C07ActionNoIO)
+	case 4: // action in a container
 		c := b.add("container", g.name("c", m))
 		g.leaf(c, g.name("f", m))
-		g.rpcBody(m, c.add("action", g.name("t", m)), 1+g.r.Intn(3))
+		g.rpcBody(m, c.add("action", g.name("t", m)), g.r.Intn(4))
 	case 5: // notification
 		n := b.add("notification", g.name("n", m))
 		g.leaf(n.add("container", g.name("c", m)), g.name("f", m))
@@ -668,10 +668,6 @@ func (g *c07g) cands(shorthand bool, ok func(*c07sn) bool) []c07cand {
 func c07augmentable(n *c07sn) bool {
 	switch n.kw {
 	case "container", "list", "choice", "case", "input", "output", "notification":
-		// an action without input and output has no addressable implicit input/output in goyang: own shape
-		if n.implicit && n.parent != nil && n.parent.kw == "action" && n.parent.kid("input").implicit && n.parent.kid("output").implicit {
-			return false
-		}
 		return true
 	}
 	return false
@@ -740,7 +736,7 @@ func (g *c07g) pathMode(w *Module, c c07cand) int {
 	switch {
 	case g.chance(0.6):
 		return 0
-	case !w.Sub && g.chance(0.5):
+	case g.chance(0.5):
 		return 2
 	}
 	return 1
@@ -957,7 +953,7 @@ func (g *c07g) op(shape int) {
 			for i := 0; i < 1+g.r.Intn(2); i++ {
 				w := subs[g.r.Intn(len(subs))]
 				if c, found := g.anyTarget(nil); found {
-					mode := g.r.Intn(2) // never an unprefixed first step here
+					mode := g.r.Intn(3)
 					g.augOn(w, c, name, mode, g.body(w, g.chance(0.3)))
 				}
 			}
@@ -1069,13 +1065,8 @@ func (g *c07g) op(shape int) {
 			return
 		}
 		c := own[g.r.Intn(len(own))]
-		a := g.augOn(w, c, name, 2, func(a *Node, t *c07sn) { g.item(w, a, t, 0) })
+		a := g.augOn(w, c, name, 2, g.body(w, false))
 		a.info.SubNoPrefix = true
-		c.n.walk(func(x *c07sn) {
-			if x.aug == a.info.ID {
-				x.noTarget = true
-			}
-		})
 	case C07ActionNoIO:
 		cs := g.cands(false, func(n *c07sn) bool {
 			return n.implicit && n.parent != nil && n.parent.kw == "action" && n.parent.kid("input").implicit && n.parent.kid("output").implicit
@@ -1085,7 +1076,7 @@ func (g *c07g) op(shape int) {
 		}
 		c := cs[g.r.Intn(len(cs))]
 		w := g.writer(nil)
-		a := g.augOn(w, c, name, 0, func(a *Node, t *c07sn) { g.item(w, a, t, 0) })
+		a := g.augOn(w, c, name, g.pathMode(w, c), g.body(w, g.chance(0.3)))
 		a.info.ActionNoIO = true
 	}
 }
